@@ -107,6 +107,11 @@ func (a *Analyzer) execCall(ctx int, v *ssa.Call, s *State, depth int) []*State 
 	if sum, ok := summaries[name]; ok {
 		return sum(a, ctx, v, s)
 	}
+	if f := c.StaticCallee(); f != nil && f.Signature.Recv() != nil {
+		if sum, ok := summaries[f.String()]; ok {
+			return sum(a, ctx, v, s)
+		}
+	}
 	// inlining of in-scope callee
 	var fn *ssa.Function
 	var free []AV
@@ -422,6 +427,22 @@ func init() {
 		a.set(s, ctx, v, r)
 		return []*State{s}
 	}
+	// net.IP.To4 / To16 return nil or a slice of exactly that length
+	ipTo := func(n int64) summary {
+		return func(a *Analyzer, ctx int, v *ssa.Call, s *State) []*State {
+			t1 := s.clone()
+			r1 := a.freshFor(t1, ctx, v).(AStr)
+			t1.addEQ(r1.n)
+			t1.addEQ(tvar(nzTerm(r1.obj)))
+			a.set(t1, ctx, v, r1)
+			t2 := s.clone()
+			r2 := a.freshFor(t2, ctx, v).(AStr)
+			t2.addEQ(r2.n.addK(-n))
+			t2.addEQ(tvar(nzTerm(r2.obj)).addK(-1))
+			a.set(t2, ctx, v, r2)
+			return []*State{t1, t2}
+		}
+	}
 	summaries = map[string]summary{
 		"strings.IndexByte": idx(0), "strings.LastIndexByte": idx(0), "strings.Index": idx(0),
 		"strings.IndexAny": idx(0), "strings.IndexFunc": idx(0), "strings.IndexRune": idx(0), "strings.LastIndex": idx(0),
@@ -509,6 +530,8 @@ func init() {
 			a.set(s, ctx, v, r)
 			return []*State{s}
 		},
+		"(net.IP).To4":  ipTo(4),
+		"(net.IP).To16": ipTo(16),
 		"(time.Duration).String": func(a *Analyzer, ctx int, v *ssa.Call, s *State) []*State {
 			r := a.freshFor(s, ctx, v).(AStr)
 			s.addLE(konst(2).sub(r.n))
